@@ -127,6 +127,12 @@ theorem view_op_refines (v : View) (hv : v.WF) (op : Op) :
       simp only [this, Bool.false_eq_true, if_false]
       exact rotate_unsupported v hk
 
+/-- a crop rectangle with a negative width or height is an IllegalArgumentException, otherwise `cropI` is
+    `crop` (so everything above applies to Go's `int` arguments) -/
+theorem cropI_spec (v : View) (l t w h : Int) :
+    cropI v l t w h = if w < 0 ∨ h < 0 then .error (.fault .illegalArg) else crop v l t w.toNat h.toNat := by
+  unfold cropI; split <;> rfl
+
 /-- **`view_refines_array`** — any sequence of operations on a well-formed view: either it runs through
     and the resulting view is well-formed and denotes the reference result of the same sequence on the
     naive array (so, by `getRow_eq_matrix_row`, GetRow y = row y of GetMatrix = naive array), or it stops at
